@@ -317,3 +317,87 @@ proof fn lemma_increasing_positions(ks: Seq<int>, g: spec_fn(int) -> bool, src: 
         lemma_count_list_bounds(ks, g, m - 1);
     }
 }
+
+// ---- pointwise facts about `fresh` (for the "every strictly closer point has been offered or is still to come" invariant) ----
+proof fn lemma_fresh_eq_expand<F: RealNumber>(next: Seq<(F, &Node<F>)>, cs: Seq<(F, &Node<F>)>, j: int)
+    requires 0 <= j < cs.len(), cs[j].1.children@.len() > 0,
+    ensures forall|i: int| #[trigger] fresh(next, cs[j].1.children@, 0, cs, j + 1, i) == fresh(next, Seq::empty(), 0, cs, j, i),
+{
+    let kids = cs[j].1.children@;
+    let ek = Seq::<Node<F>>::empty();
+    assert forall|i: int| #[trigger] fresh(next, kids, 0, cs, j + 1, i) == fresh(next, ek, 0, cs, j, i) by {
+        assert(fresh_kids(ek, 0, i) == 0);
+        assert(nfl_cov(cs, j, cs.len() as int, i) == nfl(*cs[j].1, i) + nfl_cov(cs, j + 1, cs.len() as int, i));
+        assert(nfl(*cs[j].1, i) == fresh_kids(kids, 0, i));
+    }
+}
+proof fn lemma_fresh_eq_kids_done<F: RealNumber>(next: Seq<(F, &Node<F>)>, kids: Seq<Node<F>>, cs: Seq<(F, &Node<F>)>, j: int)
+    ensures forall|i: int| #[trigger] fresh(next, Seq::empty(), 0, cs, j, i) == fresh(next, kids, kids.len() as int, cs, j, i),
+{
+    let ek = Seq::<Node<F>>::empty();
+    assert forall|i: int| #[trigger] fresh(next, ek, 0, cs, j, i) == fresh(next, kids, kids.len() as int, cs, j, i) by {
+        assert(fresh_kids(ek, 0, i) == 0);
+        assert(fresh_kids(kids, kids.len() as int, i) == 0);
+    }
+}
+proof fn lemma_fresh_eq_next_level<F: RealNumber>(next: Seq<(F, &Node<F>)>, cs: Seq<(F, &Node<F>)>)
+    ensures forall|i: int| #[trigger] fresh(Seq::empty(), Seq::empty(), 0, next, 0, i) == fresh(next, Seq::empty(), 0, cs, cs.len() as int, i),
+{
+    let e = Seq::<(F, &Node<F>)>::empty();
+    let ek = Seq::<Node<F>>::empty();
+    assert forall|i: int| #[trigger] fresh(e, ek, 0, next, 0, i) == fresh(next, ek, 0, cs, cs.len() as int, i) by {
+        assert(nfl_cov(cs, cs.len() as int, cs.len() as int, i) == 0);
+        assert(nfl_cov(e, 0, 0, i) == 0);
+    }
+}
+// taking child c out of the pending children loses at most the leaves below it
+proof fn lemma_fresh_drop_bound<F: RealNumber>(next: Seq<(F, &Node<F>)>, kids: Seq<Node<F>>, c: int, cs: Seq<(F, &Node<F>)>, j: int)
+    requires 0 <= c < kids.len(),
+    ensures forall|i: int| #[trigger] fresh(next, kids, c + 1, cs, j, i) + nl(kids[c], i) >= fresh(next, kids, c, cs, j, i),
+{
+    assert forall|i: int| #[trigger] fresh(next, kids, c + 1, cs, j, i) + nl(kids[c], i) >= fresh(next, kids, c, cs, j, i) by {
+        lemma_nfl_le(kids[c], i);
+        if c == 0 {
+            if kids.len() == 1 { assert(nl_seq(kids, 1, 1, i) == 0); }
+        } else {
+            assert(nl_seq(kids, c, kids.len() as int, i) == nl(kids[c], i) + nl_seq(kids, c + 1, kids.len() as int, i));
+        }
+    }
+}
+
+// number of positions of a value sequence with a value < u
+spec fn cnt_lt<T: PartialOrd>(s: Seq<T>, u: T) -> int
+    decreases s.len()
+{
+    if s.len() == 0 { 0 } else { cnt_lt(s.drop_last(), u) + if lt(s.last(), u) { 1int } else { 0int } }
+}
+// if every value below u occurs in h at least as often as in s, s has at most |h| positions below u
+proof fn lemma_dominated_count<T: PartialOrd>(s: Seq<T>, h: Multiset<T>, u: T)
+    requires
+        forall|v: T| lt(v, u) ==> #[trigger] s.to_multiset().count(v) <= h.count(v),
+    ensures
+        cnt_lt(s, u) <= h.len(),
+    decreases s.len()
+{
+    s.to_multiset_ensures();
+    if s.len() > 0 {
+        let s0 = s.drop_last();
+        let x = s.last();
+        assert(s == s0.push(x));
+        s0.to_multiset_ensures();
+        assert(s.to_multiset() == s0.to_multiset().insert(x));
+        if lt(x, u) {
+            assert(s.to_multiset().count(x) <= h.count(x));
+            let h1 = h.remove(x);
+            assert forall|v: T| lt(v, u) implies #[trigger] s0.to_multiset().count(v) <= h1.count(v) by {
+                assert(s.to_multiset().count(v) <= h.count(v));
+            }
+            lemma_dominated_count(s0, h1, u);
+        } else {
+            assert forall|v: T| lt(v, u) implies #[trigger] s0.to_multiset().count(v) <= h.count(v) by {
+                assert(s.to_multiset().count(v) <= h.count(v));
+            }
+            lemma_dominated_count(s0, h, u);
+        }
+    }
+}
